@@ -242,3 +242,42 @@ package das
 //@   loop 1: invariant !$Sent
 //@   loop 1: invariant (curr <= w.state.result.job.to + 1 || curr == w.state.result.job.from) && w.state.result.job == old(w.state.result.job) && w.state.result.failed == old(w.state.result.failed)
 //@   loop 1: backedge curr == head(curr) + 1 || head(curr) == 18446744073709551615
+
+// ---------------------------------------------------------------------------------------------
+// C04: resuming. The coordinator starts from the checkpoint's cursor and network head, and every height the
+// checkpoint recorded as failed is due for retry again with its recorded attempt count; nothing that was
+// already marked failed is dropped.
+//@ func (*coordinatorState).resumeFromCheckpoint
+//@   property C04
+//@   requires s != nil && s.failed != nil
+//@   modifies s
+//@   modifies s.failed
+//@   ensures s.next == c.SampleFrom && s.networkHead == c.NetworkHead && s.failed == old(s.failed) && s.inProgress == old(s.inProgress) && s.inRetry == old(s.inRetry) && s.samplingRange == old(s.samplingRange)
+//@   ensures forall h uint64 :: has(c.Failed, h) ==> has(s.failed, h) && s.failed[h].count == c.Failed[h]
+//@   ensures forall h uint64 :: old(has(s.failed, h)) ==> has(s.failed, h)
+//@   loop 1: invariant s.next == c.SampleFrom && s.networkHead == c.NetworkHead && s.failed == old(s.failed) && s.inProgress == old(s.inProgress) && s.inRetry == old(s.inRetry) && s.samplingRange == old(s.samplingRange)
+//@   loop 1: invariant forall h uint64 :: seen(1, h) ==> has(s.failed, h) && s.failed[h].count == c.Failed[h]
+//@   loop 1: invariant forall h uint64 :: old(has(s.failed, h)) ==> has(s.failed, h)
+
+// The statistics a checkpoint is computed from: the cursor and head are the coordinator's, every height
+// that is failed or in retry is reported as failed, and the sampled-chain head lies below the cursor and
+// below every failed height.
+//@ func (*coordinatorState).unsafeStats
+//@   property C04 C13
+//@   noframe
+//@   requires s != nil
+//@   ensures result.CatchupHead == uint64(s.next - 1) && result.NetworkHead == s.networkHead
+//@   checks lowestFailedOrInProgress <= s.next && result.SampledChainHead == uint64(lowestFailedOrInProgress - 1)
+//@   checks forall h uint64 :: has(s.failed, h) ==> has(failed, h)
+//@   checks forall h uint64 :: has(s.failed, h) ==> lowestFailedOrInProgress <= h
+//@   checks forall h uint64 :: has(s.inRetry, h) ==> has(failed, h)
+//@   checks result.Failed == failed && result.Workers == workers && result.Concurrency == len(workers)
+//@   loop 1: invariant lowestFailedOrInProgress <= s.next && failed != nil
+//@   loop 2: invariant lowestFailedOrInProgress <= s.next && failed != nil
+//@   loop 3: invariant lowestFailedOrInProgress <= s.next && failed != nil
+//@   loop 3: invariant forall h uint64 :: seen(3, h) ==> has(failed, h)
+//@   loop 3: invariant forall h uint64 :: seen(3, h) ==> lowestFailedOrInProgress <= h
+//@   loop 4: invariant lowestFailedOrInProgress <= s.next && failed != nil
+//@   loop 4: invariant forall h uint64 :: has(s.failed, h) ==> has(failed, h)
+//@   loop 4: invariant forall h uint64 :: has(s.failed, h) ==> lowestFailedOrInProgress <= h
+//@   loop 4: invariant forall h uint64 :: seen(4, h) ==> has(failed, h)
